@@ -1,5 +1,6 @@
 import U3.Lemmas.Route
 import U3.Lemmas.UrlHost
+import U3.Lemmas.UrlHostCase
 /-!
 # From `parse_url` to the dial theorems of C15
 
@@ -36,5 +37,145 @@ theorem stable_of_parse {idna : Str → Option Str} (hc : Url.IdnaLdh idna) {url
   apply Url.parsed_host_shape hc hp _ hh
   rw [hs]
   rcases hsch with rfl | rfl <;> (unfold Url.Normalizable; decide)
+
+/-! ## the host's letter case at the text level, for every kind of host text -/
+
+/-- what the front end (`_URI_RE`, `rpartition("@")`) and `_HOST_PORT_RE` need to know about a host text
+that stands in an authority -/
+structure HostIn (H : Str) : Prop where
+  ne : H ≠ []
+  auth : ∀ c ∈ H, Url.authChar c = true
+  noAt : 64 ∉ H
+  re : ∀ A, (A = [] ∨ ∃ t, A = 58 :: t) →
+    Url.hostPortRe (H ++ A) = (Url.portPart A).map (fun p => (H, p))
+
+/-- a reg-name (with or without percent-escapes) is such a text -/
+theorem hostIn_regText {H : Str} (h : Url.regText H = true) (hne : H ≠ []) : HostIn H :=
+  ⟨hne, Url.regText_authChar h, (Url.regText_facts h).2.2.1, fun A hA => Url.hostPortRe_regText h A hA⟩
+
+/-- a bracketed IPv6 literal is such a text -/
+theorem hostIn_literal {H : Str} (hm : Url.ipv6AddrzMatch H = true) : HostIn H := by
+  refine ⟨?_, fun c hc => (Url.literal_auth hm c hc).1, fun e => (Url.literal_auth hm 64 e).2 rfl,
+    fun A _ => Url.hostPortRe_literal hm A⟩
+  intro e; subst e; simp [Url.ipv6AddrzMatch] at hm
+
+theorem parseAuthority_hostIn (n : Bool) {P au H A : Str} (hP : UiPrefix P au) (hH : HostIn H)
+    (hA : A = [] ∨ ∃ t, A = 58 :: t) (h64 : 64 ∉ A) :
+    Url.parseAuthority n (some (P ++ (H ++ A))) =
+      match Url.portPart A with
+      | none => .error .attributeError
+      | some p => .ok (if au.isEmpty then none
+                       else some (if n then Url.encodeInvalidChars Gen.userinfoChars au else au),
+                       some H,
+                       match p with
+                       | some d => if d.isEmpty then none else some d
+                       | none => none) := by
+  have hX : 64 ∉ H ++ A := by
+    intro hm
+    rcases List.mem_append.mp hm with hm | hm
+    · exact hH.noAt hm
+    · exact h64 hm
+  have hne := hH.ne
+  have hie : (P ++ (H ++ A)).isEmpty = false := by
+    cases P <;> cases H <;> simp_all
+  have hHe : H.isEmpty = false := by cases H <;> simp_all
+  unfold Url.parseAuthority
+  simp only [hie, Bool.false_eq_true, if_false, rpartitionAt_prefix hP hX, hH.re A hA]
+  cases Url.portPart A with
+  | none => rfl
+  | some v =>
+    simp only [Option.map_some, hHe, Bool.and_false, Bool.false_eq_true, if_false]
+    rfl
+
+theorem parseCore_host_case_gen (idna : Str → Option Str) (sc P au H₁ H₂ rest : Str) (hsc : SchemeText sc)
+    (hP : UiPrefix P au) (hPa : ∀ c ∈ P, Url.authChar c = true)
+    (hH₁ : HostIn H₁) (hH₂ : HostIn H₂)
+    (hN : Url.normalizeHost idna (some H₁) (some (lower sc)) = Url.normalizeHost idna (some H₂) (some (lower sc)))
+    (hrest : rest = [] ∨ ∃ c t, rest = c :: t ∧ (c = 58 ∨ Url.authChar c = false))
+    (h64 : 64 ∉ rest.takeWhile Url.authChar) :
+    Url.parseCore idna (urlText sc P H₁ rest) = Url.parseCore idna (urlText sc P H₂ rest) := by
+  have hA : rest.takeWhile Url.authChar = [] ∨ ∃ t, rest.takeWhile Url.authChar = 58 :: t := by
+    rcases hrest with rfl | ⟨c, t, rfl, hc | hc⟩
+    · exact Or.inl rfl
+    · subst hc
+      have : Url.authChar 58 = true := by decide
+      exact Or.inr ⟨_, by rw [List.takeWhile_cons_of_pos this]⟩
+    · exact Or.inl (by rw [List.takeWhile_cons_of_neg (by simpa using hc)])
+  have front : ∀ H, HostIn H →
+      Url.schemeRe (urlText sc P H rest) = true ∧
+      Url.splitScheme (urlText sc P H rest) = (some sc, 47 :: 47 :: (P ++ (H ++ rest))) ∧
+      Url.splitAuthority (47 :: 47 :: (P ++ (H ++ rest))) =
+        (some (P ++ (H ++ rest.takeWhile Url.authChar)), rest.dropWhile Url.authChar) := by
+    intro H hH
+    obtain ⟨c, t, rfl, hc, ht⟩ := hsc
+    have h58 : Url.schemeChar1 58 = false := by decide
+    have h58' : Url.schemeChar 58 = false := by decide
+    have hne : c ≠ 47 := Url.alpha_ne47 hc
+    have ht' : ∀ x ∈ t, Url.schemeChar x = true := fun x hx => schemeChar1_schemeChar (ht x hx)
+    refine ⟨?_, ?_, ?_⟩
+    · simp only [urlText, List.cons_append, Url.schemeRe, hne, if_false, hc, if_true]
+      rw [(Url.takeWhile_append_stop t 58 (47 :: 47 :: (P ++ (H ++ rest))) ht h58).2]
+      rfl
+    · simp only [urlText, List.cons_append, Url.splitScheme, hc, if_true]
+      rw [(Url.takeWhile_append_stop t 58 (47 :: 47 :: (P ++ (H ++ rest))) ht' h58').2,
+        (Url.takeWhile_append_stop t 58 (47 :: 47 :: (P ++ (H ++ rest))) ht' h58').1]
+      rfl
+    · have hPH : ∀ x ∈ P ++ H, Url.authChar x = true := by
+        intro x hx
+        rcases List.mem_append.mp hx with hx | hx
+        · exact hPa x hx
+        · exact hH.auth x hx
+      have := takeWhile_append_all (p := Url.authChar) (P ++ H) rest hPH
+      simp only [List.append_assoc] at this
+      simp only [Url.splitAuthority, this.1, this.2]
+  obtain ⟨f1, f2, f3⟩ := front H₁ hH₁
+  obtain ⟨g1, g2, g3⟩ := front H₂ hH₂
+  unfold Url.parseCore
+  simp only [f1, f2, f3, g1, g2, g3, if_true, Option.map_some,
+    parseAuthority_hostIn _ hP hH₁ hA h64, parseAuthority_hostIn _ hP hH₂ hA h64]
+  cases Url.portPart (rest.takeWhile Url.authChar) with
+  | none => rfl
+  | some p =>
+    simp only [bind, Except.bind]
+    split <;> simp only [hN]
+
+/-- **The host's letter case does not influence the parse**, for every kind of ASCII host text: a
+reg-name with or without percent-escapes, a dotted quad, a bracketed IPv6 literal (whose zone id, if
+any, is spelled identically in both texts — a zone id is case-sensitive) -/
+theorem parseUrlWith_host_case_gen (idna : Str → Option Str) (sc P au H₁ H₂ rest : Str) (hsc : SchemeText sc)
+    (hs : lower sc = http ∨ lower sc = https) (hP : UiPrefix P au) (hPa : ∀ c ∈ P, Url.authChar c = true)
+    (hk₁ : Url.regText H₁ = true ∨ Url.ipv6AddrzMatch H₁ = true)
+    (hk₂ : Url.regText H₂ = true ∨ Url.ipv6AddrzMatch H₂ = true)
+    (ha₁ : H₁.all (· < 128) = true) (ha₂ : H₂.all (· < 128) = true) (hl : lower H₁ = lower H₂)
+    (hz : Url.ipv6AddrzMatch H₁ = true → H₁.dropWhile (· != 37) = H₂.dropWhile (· != 37))
+    (hrest : rest = [] ∨ ∃ c t, rest = c :: t ∧ (c = 58 ∨ Url.authChar c = false))
+    (h64 : 64 ∉ rest.takeWhile Url.authChar) :
+    Url.parseUrlWith idna (urlText sc P H₁ rest) = Url.parseUrlWith idna (urlText sc P H₂ rest) := by
+  by_cases hne₁ : H₁ = []
+  · have : H₂ = [] := by
+      have := congrArg List.length hl
+      simp only [lower_length, hne₁, List.length_nil] at this
+      exact List.eq_nil_of_length_eq_zero this.symm
+    rw [hne₁, this]
+  · have hne₂ : H₂ ≠ [] := by
+      intro e
+      have := congrArg List.length hl
+      simp only [lower_length, e, List.length_nil] at this
+      exact hne₁ (List.eq_nil_of_length_eq_zero this)
+    have hin : ∀ H, H ≠ [] → (Url.regText H = true ∨ Url.ipv6AddrzMatch H = true) → HostIn H := by
+      intro H hne hk
+      rcases hk with hk | hk
+      · exact hostIn_regText hk hne
+      · exact hostIn_literal hk
+    have hn : Url.Normalizable (some (lower sc)) := by
+      rcases hs with e | e <;> rw [e] <;> (unfold Url.Normalizable; decide)
+    have hN := Url.normalizeHost_case idna hn ha₁ ha₂ hl hz
+    have e1 : ∀ H, (urlText sc P H rest).isEmpty = false := by
+      intro H
+      obtain ⟨c, t, rfl, -, -⟩ := hsc
+      rfl
+    unfold Url.parseUrlWith
+    rw [e1, e1, parseCore_host_case_gen idna sc P au H₁ H₂ rest hsc hP hPa (hin H₁ hne₁ hk₁) (hin H₂ hne₂ hk₂)
+      hN hrest h64]
 
 end U3.Route
